@@ -97,7 +97,7 @@ def gltf_unbacked_bytes(files, main):
                 data = z.read(names[0]) if names else b""
         if data[:4] == b"glTF":
             data = data[20 : 20 + int.from_bytes(data[12:16], "little")]
-        doc = json.loads(data.decode("utf-8"))
+        doc = json.loads(data.decode("utf-8", errors="replace"))  # (the loader is as lenient)
         sizes = {5120: 1, 5121: 1, 5122: 2, 5123: 2, 5125: 4, 5126: 4}
         comps = {"SCALAR": 1, "VEC2": 2, "VEC3": 3, "VEC4": 4, "MAT2": 4, "MAT3": 9, "MAT4": 16}
         best = 0
